@@ -42,6 +42,8 @@ CLAIMS["C14"] = ("On every path of the unit dispatcher marker ≺ business comma
 
 CLAIMS["C13"] = ("Every transaction the tool writes starts with the marker SET on every path and carries every command of the unit; transaction batchers are created only by those writers; bookkeeping keys are built under the reserved prefix and the namespace test checks exactly the reserved prefixes; suppression predicates read key positions only (first argument, all arguments only for DEL/UNLINK) and answer true only under the reserved prefix; on every loop path of the replay-unit parser a decoded command is dropped only for a documented reason; the transaction buffer is fresh at MULTI, dropped after EXEC, append-only, and a mirrored transaction emits nothing.", "3/C13")
 
+CLAIMS["C18"] = ("The unit builder visits every command and key, hashes with the module's slot function, and on every path each failure edge (resolver error, unresolved, no keys, slot mismatch in strict mode) refuses; cluster mode uses the strict slot mode; key resolution keeps every key position; the slot tag derives from the recorded slot; control-key formats have exactly one hash tag around the slot tag and are built with the unit's tag; the cluster transaction batcher hashes every key, records every refusal and returns it before dispatch; a unit is emitted only on the builder's success edge; the builder refuses for the listed reasons only. The slot function itself is checked under C11.", "3/C18")
+
 NOT_YET = "check not built yet in this revision (planned, see DESIGN.md section 3)"
 
 def main():
